@@ -48,8 +48,8 @@ def single_family_cfg(rng):
   if fam == "juni" and rng.random() < 0.5:
     rank = rng.choice([2, 2, 3])
   while True:
-    sizes = [rng.choice([2, 3, 3, 4]) for _ in range(rank)]
-    if int(np.prod(sizes)) <= 48:
+    sizes = [rng.choice([2, 3, 3, 4, 5]) for _ in range(rank)]
+    if int(np.prod(sizes)) <= 50:
       break
   cfg = dict(sizes=sizes, units=rng.choice([1, 1, 2]), monos=[0] * rank, edge=[], trap=[], uni=[0] * rank,
              mdom=[], rdom=[], jmono=[], juni=[], omin=None, omax=None, fam=fam)
@@ -89,6 +89,11 @@ def single_family_cfg(rng):
     if rng.random() < 0.5:
       cfg["monos"][a] = 1
   elif fam == "juni":
+    if rank == 3 and rng.random() < 0.25:
+      # three jointly unimodal dimensions (3x3x3): the 2^3 offset patterns of junimod_group
+      cfg["sizes"] = [3, 3, 3]
+      cfg["juni"] = [[rng.sample(range(3), 3), rng.choice(["valley", "peak"])]]
+      return cfg
     k = rng.randint(1, min(2, rank))
     dims = rng.sample(range(rank), k)
     for d in dims:
